@@ -1,4 +1,6 @@
 mod chain;
+mod cloudfam;
+mod cryptofam;
 mod dbhist;
 mod docver;
 mod legacy;
@@ -109,6 +111,12 @@ fn main() {
                 emit(&mut out, util::guarded(|| taskfam::gen_read(seed, id)));
             }
         }
+        "cloud-race" | "cloud-cleanup" | "cloud-fault" => {
+            let mode = fam[6..].to_string();
+            for id in first..first + count {
+                emit(&mut out, util::guarded(|| cloudfam::gen_cloud(seed, id, &mode)));
+            }
+        }
         "task-mut" => {
             for id in first..first + count {
                 emit(&mut out, util::guarded(|| taskfam::gen_mut(seed, id)));
@@ -123,6 +131,16 @@ fn main() {
             for id in first..first + count {
                 emit(&mut out, util::guarded(|| taskfam::gen_expire(seed, id)));
             }
+        }
+        "crypto" => {
+            // --model-sealed file: lines "vidhex payloadhex sealedhex" produced by the Coq model
+            let ms: Vec<(String, String, String)> = arg(&args, "--model-sealed")
+                .map(|p| std::fs::read_to_string(p).unwrap().lines().filter_map(|l| {
+                    let f: Vec<&str> = l.split_whitespace().collect();
+                    if f.len() == 3 { Some((f[0].to_string(), f[1].to_string(), f[2].to_string())) } else { None }
+                }).collect())
+                .unwrap_or_default();
+            writeln!(out, "{}", cryptofam::run(seed, count, &ms)).unwrap();
         }
         "storage-legacy" => {
             writeln!(out, "{}", legacy::run(seed, count.max(40))).unwrap();
